@@ -25,21 +25,21 @@ func TestC11_PedersenFresh(t *testing.T) {
 	ev := evFor("C11")
 	ev.Rule(c11Rule)
 	ev.Assume("broadcast channel: all honest nodes see the same multiset of bundles per phase (what VerifyPacketSignature + a bulletin board provide); at most n-t Byzantine nodes")
-	rcheck(t, 150, 4000, func(t *rapid.T) { c11PedersenFresh(t, ev, c11MaxN()) })
+	rcheck(t, 150, 16000, func(t *rapid.T) { c11PedersenFresh(t, ev, c11MaxN()) })
 }
 
 func TestC11_PedersenReshare(t *testing.T) {
 	ev := evFor("C11")
-	rcheck(t, 100, 3000, func(t *rapid.T) { c11PedersenReshare(t, ev, min(c11MaxN(), 6)) })
+	rcheck(t, 100, 12000, func(t *rapid.T) { c11PedersenReshare(t, ev, min(c11MaxN(), 6)) })
 }
 
 func TestC11_PedersenProtocol(t *testing.T) {
 	ev := evFor("C11")
 	ev.Assume("synchronous phases: every packet pushed in a phase reaches every node before that node is ticked into the next phase; a 30 s wall-clock guard only turns a hang of the driver into 'inconclusive' (exit 2)")
-	rcheck(t, 80, 2500, func(t *rapid.T) { c11Protocol(t, ev, min(c11MaxN(), 7)) })
+	rcheck(t, 80, 10000, func(t *rapid.T) { c11Protocol(t, ev, min(c11MaxN(), 7)) })
 }
 
 func TestC11_Rabin(t *testing.T) {
 	ev := evFor("C11")
-	rcheck(t, 120, 4000, func(t *rapid.T) { c11Rabin(t, ev, min(c11MaxN(), 7)) })
+	rcheck(t, 120, 16000, func(t *rapid.T) { c11Rabin(t, ev, min(c11MaxN(), 7)) })
 }
